@@ -51,8 +51,10 @@ theorem reduce_eq (zero : β) (s : List α) (b : β) (f : β → α → β) : re
 theorem map_eq (zero : β) (f : α → β) (s : List α) : map zero f s = some (s.map f) := by
   simp [map, mapMake, mapBody]
 
+/-- `Repeat(x, n)`: `make([]T, n)` panics for a negative `n` and for more elements than can be allocated
+(`Stdlib.allocLimit`); otherwise `n` copies of `x` -/
 theorem repeatN_eq (zero x : α) (n : Int) :
-    repeatN zero x n = if n < 0 then none else some (List.replicate n.toNat x) := by
+    repeatN zero x n = if n < 0 then none else if n > Model.Stdlib.allocLimit then none else some (List.replicate n.toNat x) := by
   simp [repeatN, repeatMake, repeatBody]
 
 /-! ## Group -/
@@ -151,7 +153,13 @@ theorem lastIdxLoop_spec (hit : α → Bool) (s : List α) (fuel : Nat) (i : Int
       obtain ⟨j, hj, rfl⟩ := List.getElem_of_mem hy
       exact hafter j (by omega) _ (by simp [hj])
 
-theorem lastIndexFunc_spec (s : List α) (f : α → Bool) :
+/-- `len(s) - 1` (the start of both `LastIndex` loops) is exact for a length that fits in an `int` -/
+theorem liStart_nat (n : Nat) (hn : n ≤ 9223372036854775807) :
+    liStart (n : Int) = (n : Int) - 1 ∧ lifStart (n : Int) = (n : Int) - 1 := by
+  unfold liStart lifStart
+  exact ⟨wrap64_of_range (by omega) (by omega), wrap64_of_range (by omega) (by omega)⟩
+
+theorem lastIndexFunc_spec (s : List α) (f : α → Bool) (hl64 : s.length ≤ 9223372036854775807) :
     ∃ r : Int, lastIndexFunc s f = some r ∧ -1 ≤ r ∧ r < s.length ∧
       (r = -1 → ∀ y ∈ s, f y = false) ∧
       (0 ≤ r → (∃ y, s[r.toNat]? = some y ∧ f y = true) ∧ ∀ j : Nat, r < j → ∀ y, s[j]? = some y → f y = false) := by
@@ -159,9 +167,14 @@ theorem lastIndexFunc_spec (s : List α) (f : α → Bool) :
     (fun j hj y hy => by
       have : j < s.length := (List.getElem?_eq_some_iff.mp hy).1
       omega)
+  have e : lastIndexFunc s f = lastIdxLoop (fun i => decide (i ≥ 0)) f (fun i => i) (-1) 1 s (s.length + 1) ((s.length : Int) - 1) := by
+    unfold lastIndexFunc
+    rw [(liStart_nat s.length hl64).2]
+    rfl
+  rw [e]
   exact this
 
-theorem lastIndex_spec [DecidableEq α] (s : List α) (x : α) :
+theorem lastIndex_spec [DecidableEq α] (s : List α) (x : α) (hl64 : s.length ≤ 9223372036854775807) :
     ∃ r : Int, lastIndex s x = some r ∧ -1 ≤ r ∧ r < s.length ∧
       (r = -1 → x ∉ s) ∧
       (0 ≤ r → s[r.toNat]? = some x ∧ ∀ j : Nat, r < j → s[j]? ≠ some x) := by
@@ -170,6 +183,11 @@ theorem lastIndex_spec [DecidableEq α] (s : List α) (x : α) :
     (fun j hj y hy => by
       have : j < s.length := (List.getElem?_eq_some_iff.mp hy).1
       omega)
+  have e : lastIndex s x = lastIdxLoop (fun i => decide (i ≥ 0)) (fun y => decide (y = x)) (fun i => i) (-1) 1 s (s.length + 1) ((s.length : Int) - 1) := by
+    unfold lastIndex
+    rw [(liStart_nat s.length hl64).1]
+    rfl
+  rw [e]
   refine ⟨r, h1, h2, h3, ?_, ?_⟩
   · intro hr hx
     simpa using h4 hr x hx
